@@ -345,6 +345,9 @@ Definition h_bankruptcy (w : hworld) (a b : nat) : res hworld :=
   Ok (put_hacct (put_hbank w b (set_hb_b bk5 hb1)) a
         (mkHA (set_nth i bl3 (ha_la ac)) (Z.lor (ha_flags ac) ACCOUNT_DISABLED))).
 
+(* ProgramError::AccountBorrowFailed (not a custom code): printed by the driver as PE:AccountBorrowFailed *)
+Definition E_ACCOUNT_BORROW_FAILED : err := E (-3).
+
 (* lending_account_liquidate (classic liquidation) *)
 Definition h_liquidate (w : hworld) (liqor liqee ab lb : nat) (amount : Z) : res hworld :=
   let* ha := nth_bank w ab in let* hl := nth_bank w lb in
@@ -360,6 +363,8 @@ Definition h_liquidate (w : hworld) (liqor liqee ab lb : nat) (amount : Z) : res
   let* _ := validate_asset_tags (hb_b hl) (ha_la ee) in
   let* _ := validate_asset_tags (hb_b hl) (ha_la er) in
   let* _ := validate_asset_tags (hb_b ha) (ha_la er) in
+  (* both marginfi accounts are then loaded mutably: the same account twice fails with AccountBorrowFailed *)
+  let* _ := check (negb (Nat.eqb liqor liqee)) E_ACCOUNT_BORROW_FAILED in
   let* ba1 := accrue_interest (hb_b ha) (hw_pf w) (hw_now w) in
   let* bl1 := accrue_interest (hb_b hl) (hw_pf w) (hw_now w) in
   let w := put_hbank (put_hbank w ab (set_hb_b ba1 ha)) lb (set_hb_b bl1 hl) in
